@@ -140,6 +140,8 @@ def gen_seq(rng, tier):
     for c in dev["channels"]:
         if rng.random() < 0.45 and c.get("kind") != "Microwave":
             c["mod_bandwidth"] = rng.choice([4.0, 8.0, 40.0, 120.0, 2.5, 20.0, 100.0, 13.0])
+        if c.get("mod_bandwidth") is not None and rng.random() < 0.4:
+            c["custom_phase_jump_time"] = rng.choice([0, 0, 4, 7, 16, 40])
         if c.get("eom") is not None:
             if c.get("mod_bandwidth") is None:
                 c["mod_bandwidth"] = 8.0
@@ -156,6 +158,26 @@ def gen_seq(rng, tier):
     case = dict(kind="seq", device=dev, register=reg, maps=maps, ops=[])
     n_ops = rng.randint(2, 16) if tier == "quick" else rng.randint(2, 40)
     case["ops"] = seqgen.gen_ops(rng, case, n_ops, 0.05, 0.03, focus=focus)
+    # a last pulse followed by one to three short non-pulse slots (shorter
+    # than its fall time): where get_duration's backwards scan has to look
+    # behind the trailing slots
+    decl = [o for o in case["ops"] if o["op"] == "declare"]
+    specs = {c["id"]: c for c in dev["channels"]}
+    if decl and rng.random() < 0.6:
+        o = rng.choice(decl)
+        spec = specs.get(o.get("channel_id"))
+        if spec is not None:
+            c, m = spec.get("clock_period", 1), spec.get("min_duration", 1)
+            base = c * -(-m // c)
+            dur = c * rng.randint(-(-max(m, 4) // c), -(-max(m, 4) // c) + 40)
+            amp = rng.choice([0.5, 1.0, 2.0, 5.0])
+            if rng.random() < 0.8:
+                case["ops"].append(dict(op="add", channel=o["name"], protocol=rng.choice([0, 0, 1]),
+                                        pulse=dict(amp=dict(k="const", d=dur, v=amp),
+                                                   det=dict(k="const", d=dur, v=rng.choice([0.0, 0.0, -2.0, 3.0])),
+                                                   phase=0.0, post=0.0)))
+            for _ in range(rng.choice([1, 1, 2, 3])):
+                case["ops"].append(dict(op="delay", channel=o["name"], duration=base * rng.choice([1, 1, 1, 2, 3])))
     return case
 
 
@@ -357,7 +379,28 @@ def run_seq(case):
         s = cs.get_samples(**kwargs)
         d = int(cs.get_duration())
         D = int(cs.get_duration(include_fall_time=True))
-        info.update(name=name, d=d, D=D, blocks=len(s.eom_blocks))
+        # the slots as get_duration reads them (newest first) and, NOT through
+        # get_duration, where the channel's output really ends: the end of
+        # the last pulse plus its fall time, or the end of the last slot
+        in_eom = bool(cs.in_eom_mode())
+        slots = []
+        D_exp = d
+        seen_pulse = False
+        for sl in reversed(list(cs.slots)):
+            if isinstance(sl.type, Pulse):
+                f = int(sl.type.fall_time(ch, in_eom_mode=in_eom))
+                slots.append([True, int(sl.tf), f])
+                if not seen_pulse:
+                    seen_pulse = True
+                    D_exp = max(d, int(sl.tf) + f)
+            else:
+                slots.append([False, int(sl.tf), 0])
+        info.update(name=name, d=d, D=D, D_exp=D_exp, slots=slots, blocks=len(s.eom_blocks))
+        if D != D_exp:
+            slow_eom = ch.supports_eom() and in_eom and ch.eom_config.rise_time > ch.rise_time
+            bad("duration-with-fall" + (":eom-slower-than-channel" if slow_eom else ""),
+                f"channel {name!r}: get_duration(include_fall_time=True) = {D}, but the last pulse ends at "
+                f"{D_exp} including its fall time (rise {ch.rise_time}, phase jump {ch.phase_jump_time})")
         try:
             if whole is not None:
                 # what sampler.sample(seq, modulation=True) itself returned
@@ -383,9 +426,11 @@ def run_seq(case):
                 f"channel {name!r}: plain sampling succeeds, modulated sampling raises {info.get('exc')} "
                 f"(duration {d}, bandwidth {ch.mod_bandwidth}, EOM blocks {info['blocks']})")
             continue
-        if info["out"][1] != [D, D, D]:
-            bad("modulated-length",
-                f"channel {name!r}: modulated arrays have lengths {info['out'][1]}, duration incl. fall time is {D}")
+        if info["out"][1] != [D_exp, D_exp, D_exp]:
+            slow_eom = ch.supports_eom() and in_eom and ch.eom_config.rise_time > ch.rise_time
+            bad("modulated-length" + (":eom-slower-than-channel" if slow_eom and D != D_exp else ""),
+                f"channel {name!r}: modulated arrays have lengths {info['out'][1]}, the channel ends at {D_exp} "
+                f"including the fall time of its last pulse (get_duration reports {D})")
         # value clauses on channels that never used EOM mode
         if ch.mod_bandwidth and info["blocks"] == 0 and d > 0:
             a0 = L.arr(s.amp)
@@ -462,8 +507,9 @@ def item_seq(case, run):
         eom = "None"
         if c["eom"] is not None:
             eom = "(Some (%s, %s))" % (coq_float(c["eom"][0]), coq_opt(c["eom"][1], coq_Z))
-        models.append("(run_seq %s %s %s %s %s)" % (coq_Z(c["d"]), coq_Z(c["D"]), optf(c["bw"]), eom, coq_Z(c["blocks"])))
-        exps.append(sv(c["out"]))
+        slots = coq_list("mk_slot %s %s %s" % (coq_bool(k), coq_Z(tf), coq_Z(f)) for k, tf, f in c["slots"])
+        models.append("(run_seq %s %s %s %s %s)" % (coq_Z(c["d"]), slots, optf(c["bw"]), eom, coq_Z(c["blocks"])))
+        exps.append("(SL [%s; %s])" % (sv(c["D"]), sv(c["out"])))
     return "(SL [" + "; ".join(models) + "])", "(SL [" + "; ".join(exps) + "])"
 
 
@@ -479,6 +525,7 @@ Open Scope Z_scope.
 class C14(PropCheck):
     id = "C14"
     props_file = "Props/C14.v"
+    extra_targets = ["Model/ModulRun.v"]  # imported by the generated case files
     quick_cases = 600
     thorough_cases = 4000
     shard = 24
